@@ -260,6 +260,7 @@ func checkC09(w *World, r *Run) {
 		r.Check(over, ruleAll, "erasure-coding GetPartIds lists every shard store", fn.Pos(), "loop over all of partStores", "only some shard stores are listed: shards left behind in the others by a partially applied write or delete are invisible to the collector and never reclaimed")
 	}
 	checkC09PagedListings(w, r)
+	checkAbsentPartDeleteIsNoError(w, r)
 	r.NotCovered("'eventually': that the GC loop runs, that GetPartIds of every store implementation enumerates all stored ids, crash leftovers (temp files), and the timing of the grace window; the rules decide that nothing on the success paths drops an unreferenced part from the clean-up chain")
 }
 
